@@ -22,6 +22,8 @@ def run(rep, facts):
     rep.rule("R3.5", "decode failures are classified identically at all three header sites: unknown version => error without consuming; unknown type => one UnknownType reply and skip; other => Protocol error")
     rep.rule("R3.6", "From<parser::Error> for io::Error is the documented total table")
     rep.rule("R3.7", "conversions at non-final states fail without side effects (Interrupted), final states convert (see R5.1-R5.3)")
+    rep.rule("R3.14", "the stream parser's record state is replaced only by the header dispatch and, for the delivering state alone, by a stream switch (R4.5): "
+                      "a management body in flight is never cancelled by a call whose timing relative to the chunking the client cannot control")
     rep.rule("R3.9", "the GetValues name-value decoder sees at most the record's remaining payload and the reply is emitted only for a complete body (otherwise the emitted bytes would depend on read chunking)")
     rep.rule("R3.8", "stream::Parser::parse: every successful return passes the processing loop's entry test (no early-out that would leave buffered records unparsed)")
 
@@ -171,6 +173,14 @@ def run(rep, facts):
     for i in sr.instances:
         if i["instance"].endswith("/decoder-bounded") or i["instance"].endswith("/complete-body"):
             (rep.ok if i["status"] == "ok" else rep.violation)("R3.9", i["instance"], i["detail"], i["loc"])
+
+    # ---- R3.14: what a partially received record turns into may not depend on when the caller acts ----------------------
+    # (a record state in flight -- GetValues body being collected -- is replaced only where C04 R4.5 allows it: otherwise the
+    #  reply appears or not depending on where the chunk boundary fell relative to a set_stream call)
+    sr = check.Report("tmp", "quick")
+    c04.r4_5_state_writers(sr, facts)
+    for i in sr.instances:
+        (rep.ok if i["status"] == "ok" else rep.violation)("R3.14", i["instance"], i["detail"], i["loc"])
 
     # ---- information only: panic-capable sites -----------------------------------------------------------------
     inv = {}
@@ -616,21 +626,27 @@ def run_request_progress(rep, facts):
     # -- the drives ------------------------------------------------------------------------------------------------------------
     cs = _contracts()
     klass = {}
+    early = {}
     for nm in sorted(set(dispatch_map.values())):
         db = facts.body(nm)
         it = R.Interp(facts, [], len_of=None, contracts=cs)
+        it.pre_fields = [("payload_rem", "u16"), ("padding_rem", "u8")]
         ends = it.run(db)
         data_arg = it.arg_env.get(2)
         L0 = it.slice_len(data_arg, R.Ctx()) if data_arg is not None else None
         strict = weak = True
         ncont = 0
+        early[nm] = []
         for e in ends:
             ret = e.ret
             if not (isinstance(ret, tuple) and ret[0] == 'enum' and ret[2] and isinstance(ret[2][0], tuple) and ret[2][0][0] == 'tuple'):
                 strict = weak = False
                 continue
             if ret[1] != 0:
-                continue            # Break: leaves the loop
+                # Break: leaves the loop.  Remember whether the record this state is skipping / collecting was incomplete
+                if L0 is not None and not e.ctx.le(L0 + 1, it.entry_syms["payload_rem"] + it.entry_syms["padding_rem"]):
+                    early[nm].append(e.trace)
+                continue
             ncont += 1
             L = it.slice_len(ret[2][0][1][0], e.ctx)
             if L is None or L0 is None:
@@ -664,8 +680,12 @@ def run_request_progress(rep, facts):
             if not (stv is not None and stv[0] == 'call' and stv[1].endswith("::into_state") and stv[2]
                     and ir.peel(stv[2][0])[0] == 'field' and ir.peel(stv[2][0])[2] == 'next'):
                 okn = False
-        if okn and nn:
-            rep.ok("R3.13", "%s::drive/hands-over" % short, "Continue never grows the input and continues with next.into_state() (%d path(s))" % nn, db.loc())
+        if okn and nn and early.get(nm):
+            rep.violation("R3.13", "%s::drive/stops-only-when-incomplete" % short, "the drive hands control back (Break) on a path where the record's remaining payload and padding "
+                          "are completely in the input: what follows in the same chunk would wait for a read that may never come", db.loc(), path=early[nm][0][-10:])
+        elif okn and nn:
+            rep.ok("R3.13", "%s::drive/hands-over" % short, "Continue never grows the input and continues with next.into_state() (%d path(s)); Break only while "
+                   "len(data) < payload_rem + padding_rem" % nn, db.loc())
         else:
             rep.violation("R3.13", "%s::drive/hands-over" % short, "a Continue that may consume nothing does not continue with next.into_state()", db.loc())
     # every into_state builds a consuming or final state
